@@ -220,10 +220,11 @@ def check_dec(rep, known, cases, info, stats):
             spec_code = sv[7] if sv is not None else sO
             # (1) the raw rule list: implementation vs model, with the literal specification as oracle
             if iv[0] != mv[0]:
-                if iv[0] != spec_lit and attribute(sv or sO * 8, iv[0]) is None:
+                if iv[0] != spec_lit:
                     rep.violation("%s decision of bus/policy.c is %s, the documented evaluation gives %s (model %s): %s" % (what, iv[0], spec_lit, mv[0], line[:400]),
                                   {"line": line, "impl": i, "model": m, "what": what})
                 else:
+                    # the implementation follows the literal manual page where the model has a known deviation: only the model is off
                     rep.violation("%s decision: implementation %s, model %s (spec %s): %s" % (what, iv[0], mv[0], spec_lit, line[:400]),
                                   {"line": line, "impl": i, "model": m, "names": "correspondence policy_h vs Policy.check_can_%s" % what}, found_input=False)
                 continue
